@@ -1,9 +1,26 @@
+/-
+  C08 — The extended square is a two-dimensional erasure code.   PROPERTY THEOREMS ONLY.
+
+  Model: `Lumina/Model/EdsCode.lean` (`fromOds` = `ExtendedDataSquare::from_ods`, `edsNew` = `ExtendedDataSquare::new`,
+  the argument checks of `leopard_codec::encode/reconstruct`).  Spec: `Lumina/Spec/C08.lean`.
+  The Reed–Solomon arithmetic is NOT modelled; what is assumed of it is stated as hypotheses:
+
+    `EncShape enc k`       k data shards give k parity shards
+    `EncLinear enc k 512`  the encoder acts bytewise as a k × k matrix over a commutative semiring structure on bytes
+                           (GF(2^8) for leopard) — needed for the COLUMNS through the parity half only
+    `MDS enc rec k`        the decoder returns a codeword from any ≥ k of its 2k symbols
+
+  all three validated against the real codec by the correspondence on every run (`extend` lines: the columns of Q1 are
+  re-encoded by the real codec independently and compared; `recon` lines: real reconstruct on random erasure patterns;
+  `linear` lines: additivity and bytewise action), none proved about leopard's FFT.
+-/
 import Lumina.Gen.C08
-import Lumina.Model.EdsCode
-import Lumina.Spec.C08
+import Lumina.Proofs.EdsMalformed
 
 namespace Lumina.Props.C08
-open Lumina.Model.EdsCode
+open Lumina.Util Lumina.Model.Nmt Lumina.Model.Eds Lumina.Model.EdsCode
+open Lumina.Proofs.EdsCode Lumina.Proofs.EdsExtend Lumina.Proofs.EdsLinear Lumina.Proofs.EdsCodeword Lumina.Proofs.EdsMalformed
+open Lumina.Spec.C08
 
 theorem consts_eq :
     Lumina.Gen.C08.SHARE_SIZE = 512 ∧ Lumina.Gen.C08.SHARE_SIZE = Lumina.Model.Eds.SHARE_SIZE ∧
@@ -11,7 +28,114 @@ theorem consts_eq :
     Lumina.Gen.C08.MIN_SQUARE_SIZE * 2 = MIN_EXTENDED_SQUARE_WIDTH ∧
     Lumina.Gen.C08.SHARE_VERSION_ONE = SHARE_VERSION_ONE ∧
     Lumina.Gen.C08.SQUARE_SIZE_UPPER_BOUNDS = (List.range 7).map (fun i => squareSizeUpperBound (i + 1)) ∧
-    Lumina.Gen.C08.SQUARE_SIZE_UPPER_BOUNDS = (List.range 7).map (fun i => Lumina.Spec.C08.maxOdsWidth (i + 1)) := by
+    Lumina.Gen.C08.SQUARE_SIZE_UPPER_BOUNDS = (List.range 7).map (fun i => maxOdsWidth (i + 1)) := by
   decide
+
+/-- **The extension is a two-dimensional code** — for every original square, app version and linear encoder: if
+    `from_ods` accepts, the returned square keeps the original square as its first quadrant and EVERY row and EVERY
+    column (through the data half and through the parity half alike) is a codeword. -/
+theorem extend_spec (enc : List Bytes → List Bytes) (ver : Nat) (ods : List Bytes) (e : Eds)
+    (hs : EncShape enc (isqrt ods.length)) (L : EncLinear enc (isqrt ods.length) 512)
+    (h : fromOds enc ver ods = .ok e) :
+    specExtend enc ods (.ok e.width (e.shares.map Share.data)) = true := by
+  have x := extOK hs h
+  have hlen : ∀ s ∈ ods, s.length = 512 := x.ods_size
+  generalize isqrt ods.length = k at x hs L
+  simp only [specExtend, x.width, x.data, Bool.and_eq_true, beq_iff_eq, List.all_eq_true, List.mem_range]
+  refine ⟨⟨⟨?_, extGrid_length enc k ods⟩, by omega⟩, ?_⟩
+  · rw [quadrant0_eq]; exact Lumina.Proofs.ShrexEds.quadrant0_extGrid enc x.sq
+  · intro i hi
+    have h2 : 2 * k / 2 = k := by omega
+    rw [h2, rowOf_extGrid enc k ods hi, colOf_extGrid enc k ods hi, isCodeword_iff, isCodeword_iff]
+    exact axes_codewords hs L x.sq hlen hi
+
+/-- the decoder recovers a codeword from any `k` of its `2k` symbols (erased symbols = empty strings) -/
+def MDS (enc : List Bytes → List Bytes) (rec : List Bytes → List Bytes) (k : Nat) : Prop :=
+  ∀ cw, IsCodeword enc k cw → (∀ s ∈ cw, s.length = 512) →
+    ∀ mask : List Bool, mask.length = 2 * k → k ≤ (mask.filter id).length → rec (erase mask cw) = cw
+
+/-- **Any half of the shares of an axis reconstructs the whole axis** — every row and column of an accepted extension,
+    every erasure pattern that leaves at least half. -/
+theorem any_half_reconstructs (enc rec : List Bytes → List Bytes) (ver : Nat) (ods : List Bytes) (e : Eds)
+    (hs : EncShape enc (isqrt ods.length)) (L : EncLinear enc (isqrt ods.length) 512)
+    (hm : MDS enc rec (isqrt ods.length)) (h : fromOds enc ver ods = .ok e)
+    (ax : Axis) (i : Nat) (hi : i < e.width) (mask : List Bool) (hml : mask.length = e.width)
+    (hhalf : e.width / 2 ≤ (mask.filter id).length) :
+    ∃ axis, e.axis? ax i = some axis ∧
+      specReconstruct (axis.map Share.data) (some (rec (erase mask (axis.map Share.data)))) = true := by
+  have x := extOK hs h
+  have hlen : ∀ s ∈ ods, s.length = 512 := x.ods_size
+  generalize isqrt ods.length = k at x hs L hm
+  have hi2 : i < 2 * k := by rw [← x.width]; exact hi
+  refine ⟨_, x.newOK.axis ax hi, ?_⟩
+  have hdata : (lineCells e.width (extGrid enc k ods) ax i).map Share.data =
+      (match ax with | .row => extRow enc k ods i | .col => extCol enc k ods i) := by
+    cases ax with
+    | row =>
+      simp only [lineCells, List.map_map, extRow, x.width]
+      apply List.map_congr_left
+      intro c hc
+      simp only [Function.comp_apply, cell, axisCoord]
+      exact extGrid_getD enc k ods hi2 (List.mem_range.mp hc)
+    | col =>
+      simp only [lineCells, List.map_map, extCol, x.width]
+      apply List.map_congr_left
+      intro r hr
+      simp only [Function.comp_apply, cell, axisCoord]
+      exact extGrid_getD enc k ods (List.mem_range.mp hr) hi2
+  have hcw := axes_codewords hs L x.sq hlen hi2
+  have hsz : ∀ s ∈ (lineCells e.width (extGrid enc k ods) ax i).map Share.data, s.length = 512 := by
+    intro s hs'
+    obtain ⟨sh, hsh, rfl⟩ := List.mem_map.mp hs'
+    exact (x.newOK.cells i hi ax sh hsh).size
+  have hk2 : e.width / 2 = k := by rw [x.width]; omega
+  simp only [specReconstruct, beq_iff_eq, Option.some.injEq]
+  apply hm
+  · rw [hdata]; cases ax with
+    | row => exact hcw.1
+    | col => exact hcw.2
+  · exact hsz
+  · rw [hml, x.width]
+  · rw [← hk2]; exact hhalf
+
+/-- **Malformed extended squares are rejected by `new`**: a share count that is not a square, a width that is not a
+    power of two, fewer than 2 × 2 or more than the app version's bound, a share that is not 512 bytes, a row or column
+    not sorted by namespace — for every input. -/
+theorem new_rejects_malformed (ver : Nat) (shares : List Bytes) (hm : malformedEds ver shares = true) :
+    specRejects (malformedEds ver shares) (match edsNew ver shares with | .ok _ => true | .error _ => false) = true := by
+  cases h : edsNew ver shares with
+  | error er => simp [specRejects]
+  | ok e => rw [new_rejects h] at hm; cases hm
+
+/-- **Malformed original squares are rejected by `from_ods`** (same classes, stated on the original square) -/
+theorem from_ods_rejects_malformed (enc : List Bytes → List Bytes) (ver : Nat) (ods : List Bytes)
+    (hs : EncShape enc (isqrt ods.length)) (hm : malformedOds ver ods = true) :
+    specRejects (malformedOds ver ods) (match fromOds enc ver ods with | .ok _ => true | .error _ => false) = true := by
+  cases h : fromOds enc ver ods with
+  | error er => simp [specRejects]
+  | ok e => rw [from_ods_rejects hs h] at hm; cases hm
+
+/-- the defect found by the correspondence and fixed in /repo (bcfb373): before the fix the EMPTY original square was
+    not rejected — `from_ods` panicked on it -/
+theorem from_ods_empty_unfixed_counterexample (enc : List Bytes → List Bytes) (ver : Nat) :
+    malformedOds ver [] = true ∧ fromOdsUnfixed enc ver [] = none ∧ fromOds enc ver [] = .error .validation := by
+  refine ⟨by simp [malformedOds, maxOdsWidth], by simp [fromOdsUnfixed, isqrt, sqrtAux], ?_⟩
+  simp [fromOds, isqrt, sqrtAux, fromOdsLeopardErr, sqRows, sqCols, q2Rows, extendRaw, edsNew, MIN_EXTENDED_SQUARE_WIDTH]
+
+/-- non-vacuity: the identity "codec" is shape-correct and linear (identity matrix over ℕ-valued bytes …) — the real
+    hypotheses are exercised against leopard by the correspondence; here: `EncShape` is inhabited and `MDS` is
+    satisfiable for it at `k = 0` -/
+example : EncShape (fun row => row) 4 := fun _ h => h
+
+/-- non-vacuity of `EncLinear`: the repetition code (parity = data) is linear, with the identity matrix over ℕ -/
+example (k : Nat) : EncLinear (fun row => row) k 512 where
+  F := Nat
+  toF := UInt8.toNat
+  toF_inj := fun a b h => UInt8.toNat_inj.mp h
+  M := 1
+  shape := fun _ h1 h2 => ⟨h1, h2⟩
+  spec := by
+    intro row _ _ j b _
+    simp [Matrix.one_apply]
 
 end Lumina.Props.C08
